@@ -12,6 +12,7 @@ mod session;
 mod syntaxmode;
 mod bytecode;
 mod include;
+mod stepwise;
 
 use serde_json::{json, Value as J};
 use std::io::{BufRead, Write};
@@ -44,6 +45,7 @@ fn handle(req: &J) -> J {
     "bytecode" => bytecode::run(req),
     "bytes" => bytecode::run_bytes(req),
     "include" => include::run(req),
+    "stepwise" => stepwise::run(req),
     _ => json!({"error":"unknown mode"}),
   };
   if let Some(id) = req.get("id") {
